@@ -186,6 +186,7 @@ type Exec struct {
 	instName  string
 	wrap64    bool
 	allowHeapClosure bool
+	anchorResults []Val
 	inGoal    int
 	goalIx    []string
 	topTargets []modTarget
